@@ -180,7 +180,10 @@ class ApplicationPartPut(ApplicationBase):
                 not parent_item.tag)
 
             if write_whole_collection:
-                tag = prepared_tag
+                # The permission check below needs the tag that is going to
+                # be written, even if it wasn't predicted before locking
+                tag = prepared_tag or radicale_item.predict_tag_of_whole_collection(
+                    vobject_items, MIMETYPE_TAGS.get(content_type))
             else:
                 tag = parent_item.tag
 
